@@ -302,7 +302,9 @@ class CallMixin:
             args = list(args) + [kwargs[n] for n in names[len(args):]]
         if len(args) != len(ps):
             raise ContractError(f"spec function {sf.name}: arity")
-        if sf.pure:
+        cur0 = self.contracts.get(self.current_target) if self.current_target else None
+        opaque_here = cur0 is not None and sf.name in (cur0.options.get("opaque") or ())
+        if sf.pure and not opaque_here:
             res = self.unfold_spec(st, sf, ps, args)
             if isinstance(res, Z) and rt.kind == "ref" and res.t.kind == "ref" and rt.cls:
                 res = Z(rt, res.e)
@@ -325,7 +327,9 @@ class CallMixin:
             and sf.node.body[-1].value.value is Ellipsis
         cur = self.contracts.get(self.current_target) if self.current_target else None
         if cur is not None and sf.name in (cur.options.get("no_unfold") or ()) and st.fuel <= 1:
-            abstract = True       # this function's proof treats the symbol as opaque (it only matches applications syntactically)
+            abstract = True
+        if opaque_here:
+            abstract = True       # option("opaque", [...]): a defined (pure) function used as an uninterpreted symbol in this proof       # this function's proof treats the symbol as opaque (it only matches applications syntactically)
         if key not in done and st.fuel > 0 and not abstract:
             done.add(key)
             st.fuel -= 1
